@@ -15,7 +15,7 @@ from vlib.runner import Sub, Violation
 def cases(draw, tier):
     nmax = 5 if tier == 'thorough' else 4
     nl = draw(gen.netlists(min_inputs=1, max_inputs=nmax, max_gates=16 if tier == 'thorough' else 12,
-                           max_arity=4, styles=('plain', 'digits', 'mixed'), max_outputs=3))
+                           max_arity=4, styles=('plain', 'digits', 'mixed'), max_outputs=3, const_operands=(0, 0, 2)))
     return {'nl': nl, 'route': draw(gen.routes(nl)), 'explicit_undefined': draw(st.booleans())}
 
 
